@@ -264,7 +264,28 @@ func Exec(c *Case) (nontrivial bool, labels []string, fail *vlib.Failure) {
 			}
 		}
 		sort.Strings(cand)
+		// an operation that is neither parked nor done is running (or sleeping between registration attempts):
+		// the schedule may also decide to let it proceed for a while before anything else is released
+		waitFor := 25 * time.Millisecond
+		running := false
+		for n, os := range states {
+			if n != "expiry" && os.parked == nil && !os.done && os.released > 0 {
+				running = true
+			}
+		}
+		if running && len(cand) > 0 {
+			cand = append(cand, "~wait")
+		}
+		if len(cand) > 0 && cand[c.Schedule[step%len(c.Schedule)]%len(cand)] == "~wait" {
+			step++
+			waitFor = 260 * time.Millisecond
+			order = append(order, "~wait")
+			cand = nil
+		}
 		if len(cand) > 0 {
+			if cand[len(cand)-1] == "~wait" {
+				cand = cand[:len(cand)-1]
+			}
 			pick := cand[c.Schedule[step%len(c.Schedule)]%len(cand)]
 			step++
 			os := states[pick]
@@ -286,7 +307,7 @@ func Exec(c *Case) (nontrivial bool, labels []string, fail *vlib.Failure) {
 			lastProgress = time.Now()
 		}
 		// let the released operation run until it parks, finishes or proves to be blocked
-		timeout := time.After(25 * time.Millisecond)
+		timeout := time.After(waitFor)
 	WAIT:
 		for {
 			select {
